@@ -44,7 +44,10 @@ pub fn gen(tier: &str, seed: u64) -> Gen {
             let b = if i < forms.len() * BODIES.len() && j == 0 { (i / forms.len()) % BODIES.len() } else { rng.below(BODIES.len()) };
             let (_, kind, val) = BODIES[b];
             // expectation: matching, wrong value, or wrong code
-            let (ecode, evalue) = match rng.below(4) {
+            let numeric = !val.is_empty() && val.chars().all(|c| c.is_ascii_digit());
+            let (ecode, evalue) = match rng.below(if numeric { 6 } else { 4 }) {
+                // a different spelling of the same number is a different expectation (values are strings)
+                4 | 5 => ("-ok", [format!("00{}", val), format!("+{}", val), format!(" {}", val), format!("{} ", val), format!("0x{}", val), format!("{}.0", val), format!("-{}", val)][rng.below(7)].clone()),
                 0 | 1 => (if kind == "error" { "-error" } else { "-ok" }, val.to_string()),
                 2 => (if kind == "error" { "-error" } else { "-ok" }, format!("{}x", val)),
                 _ => (if kind == "error" { "-ok" } else { "-error" }, val.to_string()),
@@ -53,7 +56,7 @@ pub fn gen(tier: &str, seed: u64) -> Gen {
         }
         cases.push(tl(vec![tl(tests.clone()), ts(&render(&tests))]));
     }
-    (cases, vec![("test scripts of 1-6 tests: both syntaxes, 16 body kinds (ok, error, return, break, continue, custom code, dependence on this test's setup, isolation from earlier bodies, setups and cleanups), matching/mismatching expectations, malformed invocations, failing setup/cleanup".to_string(), n, false)])
+    (cases, vec![("test scripts of 1-6 tests: both syntaxes, 16 body kinds (ok, error, return, break, continue, custom code, dependence on this test's setup, isolation from earlier bodies, setups and cleanups), matching/mismatching expectations (incl. other spellings of the same number), malformed invocations, failing setup/cleanup".to_string(), n, false)])
 }
 
 fn helper(kind: i128, which: &str) -> String {
